@@ -56,6 +56,18 @@ def spec_pair(field):
     return s1, s2  # if the library considers them equal although they differ in `field`, the mix below is accepted and reported
 
 
+CONFIG_FIELDS = {"work_dir": ("/tmp/vkit-c18-a", "/tmp/vkit-c18-b"), "allowed_mem": (4_000_000, 8_000_000), "reserved_mem": (0, 1000),
+                 "executor": ("single-threaded", "threads"), "zarr_compressor": ("auto", None)}
+
+
+def config_pair(field):
+    """the same two resource settings expressed through the global configuration (arrays are then created without spec=)"""
+    base = {"spec.allowed_mem": 4_000_000, "spec.reserved_mem": 0, "spec.work_dir": "/tmp/vkit-c18-a", "spec.executor_name": "single-threaded"}
+    key = "spec.executor_name" if field == "executor" else f"spec.{field}"
+    va, vb = CONFIG_FIELDS[field]
+    return dict(base, **{key: va}), dict(base, **{key: vb}), key
+
+
 def multi_array_cases():
     seen = {}
     for c in cases("quick"):
@@ -89,11 +101,31 @@ def eval_mix(item):
             ns[1] = np.array([0, 1])
     else:
         ns = np_inputs(case)
+    via_config = isinstance(field, (tuple, list))
+    if via_config:
+        field = field[1]
     for p in range(n):
-        s1, s2 = spec_pair(field)
         xs = []
-        for k, (i, a) in enumerate(zip(case["inputs"], ns)):
-            xs.append(xp.asarray(a, chunks=tuple(i["chunks"]), spec=s1 if k == p else s2))
+        if via_config:
+            # each array is created WITHOUT spec= while a global configuration is in force; the call under test is made
+            # after the configuration blocks have been left (an array keeps the resources it was created under)
+            c1, c2, ckey = config_pair(field)
+            for k, (i, a) in enumerate(zip(case["inputs"], ns)):
+                cfg = c1 if k == p else c2
+                with cubed.config.set(cfg):
+                    x = xp.asarray(a, chunks=tuple(i["chunks"]))
+                    inside = (x.spec.allowed_mem, x.spec.reserved_mem, x.spec.work_dir, x.spec.executor_name, x.spec.zarr_compressor)
+                xs.append(x)
+                after = (x.spec.allowed_mem, x.spec.reserved_mem, x.spec.work_dir, x.spec.executor_name, x.spec.zarr_compressor)
+                want = (cfg["spec.allowed_mem"], cfg["spec.reserved_mem"], cfg["spec.work_dir"], cfg["spec.executor_name"], cfg.get("spec.zarr_compressor", inside[4]))
+                if (inside != want or after != want) and "spec-changed" not in cnt:
+                    cnt["spec-changed"] += 1
+                    probs.append((dict(kind="spec-not-the-one-configured", entry=case["op"], field=field),
+                                  f"an array created without spec= under the global configuration {ckey}={cfg[ckey]!r} reports (allowed_mem, reserved_mem, work_dir, executor_name, zarr_compressor) = {inside} inside the configuration block and {after} after it; configured: {want}"))
+        else:
+            s1, s2 = spec_pair(field)
+            for k, (i, a) in enumerate(zip(case["inputs"], ns)):
+                xs.append(xp.asarray(a, chunks=tuple(i["chunks"]), spec=s1 if k == p else s2))
         cnt["evaluations"] += 1
         outs = None
         err = None
@@ -138,8 +170,8 @@ def eval_mix(item):
             # an error other than ValueError still prevents a mixed computation; not judged here (C17 judges types)
         if err is None:
             if outs == "ran":
-                probs.append((dict(kind="mixed-specs-ran", entry=case["op"], field=field),
-                              f"{case['op']} over arrays whose specs differ in {field} ran without an error (array {p} differs)"))
+                probs.append((dict(kind="mixed-specs-ran", entry=case["op"], field=field, **({"via": "config"} if via_config else {})),
+                              f"{case['op']} over arrays whose specs differ in {field}{' (set through the global configuration at creation time)' if via_config else ''} ran without an error (array {p} differs)"))
                 continue
             mixed = False
             for o in outs:
@@ -147,8 +179,8 @@ def eval_mix(item):
                 if xs[p].name in nodes and any(x.name in nodes for k, x in enumerate(xs) if k != p):
                     mixed = True
             if mixed:
-                probs.append((dict(kind="mixed-specs-accepted", entry=case["op"], fn=case["params"].get("fn") or case["params"].get("op") or case["params"].get("mode"), field=field),
-                              f"{case['op']} {case['params']} accepted arrays whose specs differ in {field} (argument {p} differs) and returned an array whose plan contains both"))
+                probs.append((dict(kind="mixed-specs-accepted", entry=case["op"], fn=case["params"].get("fn") or case["params"].get("op") or case["params"].get("mode"), field=field, **({"via": "config"} if via_config else {})),
+                              f"{case['op']} {case['params']} accepted arrays whose specs differ in {field}{' (set through the global configuration at creation time)' if via_config else ''} (argument {p} differs) and returned an array whose plan contains both"))
             else:
                 cnt["accepted-unmixed"] += 1
     return cnt, probs
@@ -341,7 +373,7 @@ def run(ctx):
     tier = ctx.tier
     tot = Counter()
     mc = multi_array_cases()
-    items = [(c, f) for c in mc for f in FIELDS]
+    items = [(c, f) for c in mc for f in FIELDS] + [(c, ("config", f)) for c in mc for f in CONFIG_FIELDS]
     for (case, field), (cnt, probs) in zip(items, ctx.pmap(eval_mix, items, chunksize=8)):
         tot.update({"mix_" + k: v for k, v in cnt.items()})
         for sig, text in probs:
